@@ -161,12 +161,14 @@ func newStreamPool(poolCapacity uint32) *streamPool {
 func (sm *SessionManager) Close() error {
 	sm.cancelFunc()
 	sm.wg.Wait()
+	// under the lock of the hot restart handler: a handler that is swapping a pool right now finishes
+	// first and what it installed is closed here, a later one sees the cancelled context
+	sm.Lock()
 	for i := 0; i < len(sm.pools); i++ {
 		sm.pools[i].close()
 	}
 	// the stream pools parked by a hot restart belong to the manager as well: left open, a hot restart
 	// event arriving on one of their sessions would make the closed manager dial new sessions
-	sm.Lock()
 	for _, p := range sm.reservePools {
 		p.close()
 	}
@@ -310,6 +312,11 @@ func handleSessionManagerHotRestart(sm *SessionManager, params interface{}) {
 
 	sm.Lock()
 	defer sm.Unlock()
+
+	// a closed manager takes no part in a hot restart any more
+	if sm.ctx.Err() != nil {
+		return
+	}
 
 	hParams := params.(*sessionManagerHotRestartParams)
 	if sm.state == hotRestartState && sm.epoch != hParams.epoch {
